@@ -14,7 +14,7 @@ def ref_parse(s):
     if m:
         t = tuple(int(m.group(i)) for i in (1, 2, 3))
         if max(t) > 2**31 - 1:
-            return "either"      # beyond int: refusing is as good as accepting
+            return "huge"        # beyond int: may be refused, must never be taken for another number
         return t
     if LAX.match(s):
         return "either"
@@ -64,12 +64,21 @@ def run(prop, tier):
         strings = [""] + ["".join(t) for k in range(1, L + 1) for t in itertools.product(alpha, repeat=k)]
         strings += ["1.2.3-rc1", "10.20.30", "1.2.3.4", "1..2.3", "1. 11.0", " 1.2.3", "+1.2.3", "1.2.3 ", "1.2.-3", "1.+2.3", "99999999999.1.1",
                     "1.2.3-", "1.2", "1", "1.O.O", "1.2.3rc", "a.b.c", "1.2.3\t", "0x1.2.3", "1.2.3.", ".1.2.3", "1,2,3"]
+        # components beyond int / long: refusing is fine, wrapping around to another number is not
+        for big in (2**31, 2**31 + 1, 2**32, 2**32 + 1, 2 * 2**32 + 2, 2**63, 2**64 + 1):
+            strings += ["%d.0.0" % big, "1.%d.0" % big, "1.2.%d" % big, "%d.%d.%d" % (big, big, big)]
         nmal = 0
         for s in strings:
             r = ask("P " + s)
             want = ref_parse(s)
             ctx.add(evaluations=1, transitions=1)
             if want == "either":
+                continue
+            if want == "huge":
+                ctx.add(refusing_side=1)
+                if r[1] == "0":
+                    ctx.violation("version_parse(%r) succeeds with %s: a component beyond the int range was silently reduced" % (s, r[2:]),
+                                  {"engine": "E4 version_server", "query": "P", "string": s}, {"kind": "parse-wraps", "string": s})
                 continue
             if want is None:
                 nmal += 1
@@ -98,6 +107,15 @@ def run(prop, tier):
                 if r[1] != want:
                     ctx.violation("ovni_version_check_str(%r) with library %s: %s, expected %s" % (s, lib, r[1], want),
                                   {"engine": "E4 version_server", "query": "V", "string": s, "library": lib}, {"kind": "runtime-check"})
+        for k in (2**31, 2**32, 2 * 2**32, 3 * 2**32, 2**64):
+            for d in (-1, 0, 1):
+                for s in ("%d.%d.0" % (lv[0] + d + k, lv[1]), "%d.%d.0" % (lv[0], max(lv[1] + d, 0) + k), "%d.%d.0" % (lv[0] + k, k)):
+                    r = ask("V " + s)
+                    nb += 1
+                    ctx.add(refusing_side=1)
+                    if r[1] != "refused":
+                        ctx.violation("ovni_version_check_str(%r) with library %s: %s, but the major differs or the minor is greater" % (s, lib, r[1]),
+                                      {"engine": "E4 version_server", "query": "V", "string": s, "library": lib}, {"kind": "runtime-check-huge"})
         for s in ["", "1", "1.2", "a.b.c", "1.2.3rc", "1.O.O", "-1.0.0", "1.2.3.4", "1..2.3", "..", "1.2.", "x"]:
             r = ask("V " + s)
             nb += 1
@@ -122,8 +140,17 @@ def run(prop, tier):
                 if min(w) < 0:
                     continue
                 jobs.append(("version", model, "%d.%d.%d" % w, compatible(w, have), None))
+                if dp == 0:
+                    # forcing all models on does not switch the version check off
+                    jobs.append(("version", model, "%d.%d.%d" % w, compatible(w, have), ("-a",)))
             for bad in ("1.x.0", "1", "", "1.2.3rc"):
                 jobs.append(("version", model, bad, False, None))
+                jobs.append(("version", model, bad, False, ("-a",)))
+            for k in (2**31, 2**32, 2 * 2**32):
+                jobs.append(("version", model, "%d.%d.%d" % (have[0] + k, have[1], have[2]), False, None))
+                jobs.append(("version", model, "%d.%d.%d" % (have[0], k, have[2]), False, None))
+                if have[1] > 0:
+                    jobs.append(("version", model, "%d.%d.%d" % (have[0], have[1] - 1 + k, have[2]), False, None))
             # second stream requires something else than the first (checked for every stream, in any order)
             ok_v = d["version"]
             bad_v = "%d.%d.%d" % (have[0], have[1] + 1, 0)
@@ -187,7 +214,7 @@ def run(prop, tier):
         ctx.cov["rule"] = ("version_is_compatible on all pairs of triples over {0,1,2}^3; version_parse on every string of length <= 6/7 over {0,1,.,-,a} "
                            "against a regular-expression reference (leading zeros not judged); ovni_version_check_str on the +-1 cube around the "
                            "library version; real ovniemu on traces requiring every version in the +-1 cube of each of the 8 models, mixed "
-                           "requirements across streams in both orders, malformed strings, and subsets of required models x one probe event per model (+ -a)")
+                           "requirements across streams in both orders, malformed strings, the same with -a, components beyond the int range, and subsets of required models x one probe event per model (+ -a)")
         # non-trivial = cases on the refusing side of the relation (incompatible pair, malformed string, model not required)
         ctx.cov["distinct_nontrivial"] = ctx.cov.get("refusing_side", 0)
         return ctx.finish()
